@@ -20,7 +20,9 @@ Inductive case :=
            (r2tab : list (nat * nat * float)) (obs : list (list nat * list float)) (sd : list (nat * nat * float))
            (out : option (list nat))
   (* as CCorner; obs = postprocessing.rank_corners_triangle(points, cluster) per cluster, compared bit-for-bit with tri_score *)
-  | CCorner2 (xs ys : list float) (knees labels : list nat) (obs : list (list nat * list float)) (out : option (list nat)).
+  | CCorner2 (xs ys : list float) (knees labels : list nat) (obs : list (list nat * list float)) (out : option (list nat))
+  (* a sequence of calls made on ONE points buffer (refilled in place between calls) and ONE knee array *)
+  | CSeq (calls : list case) (intact : bool).
 
 Definition F := T FloatNum.
 
@@ -109,7 +111,26 @@ Definition obs_same (sel : list nat -> bool) (scoref : list nat -> list float) (
                     else true) (clusters labels knees).
 
 (* result code = 100 * agree + holds *)
-Definition judge (c : case) : Z :=
+
+(* ---- same-object multi-call stream: the sub-cases are the calls of ONE sequence made on one points buffer and one knee
+   array; `intact` = after the sequence the caller's arguments still hold what was passed (snapshot comparison).
+   agree: worst of the calls (1/4 over 5 over 0; 6 when every call is outside the domain);
+   holds: the first failed conjunct of a call inside the domain, else 8 when an argument was rewritten in place. ---- *)
+Definition combine_codes (codes : list Z) (intact : bool) : Z :=
+  let inside := filter (fun z => negb (z / 100 =? 6)%Z) codes in
+  match inside with
+  | [] => 600%Z
+  | _ =>
+      let has a := existsb (fun z => (z / 100 =? a)%Z) inside in
+      let a := if has 1%Z then 1%Z else if has 4%Z then 4%Z else if has 5%Z then 5%Z else 0%Z in
+      let h := match find (fun z => negb (z mod 100 =? 0)%Z) inside with
+               | Some z => (z mod 100)%Z
+               | None => if intact then 0%Z else 8%Z
+               end in
+      (100 * a + h)%Z
+  end.
+
+Fixpoint judge (c : case) {struct c} : Z :=
   match c with
   | CFilt m xs ys knees labels hull scores sd out =>
       if negb (domain false xs ys knees labels) then 600%Z else
@@ -170,15 +191,17 @@ Definition judge (c : case) : Z :=
                    else if negb (obs_same (fun _ => true) sc labels knees obs) then 3%Z else 0%Z
                end in
       (100 * a + h)%Z
+  | CSeq calls intact => combine_codes (map judge calls) intact
   end.
 
 (* the model's own output, for replay files *)
-Definition show (c : case) : option (list nat) :=
+Fixpoint show (c : case) {struct c} : list (option (list nat)) :=
   match c with
   | CFilt m xs ys knees labels hull scores sd out =>
-      @filter_clusters FloatNum (@argsort_stable FloatNum) (score_of scores) hull (sd_of sd) xs m labels knees
-  | CCorner xs ys knees labels out => @filter_clusters_corners FloatNum xs ys labels knees
+      [@filter_clusters FloatNum (@argsort_stable FloatNum) (score_of scores) hull (sd_of sd) xs m labels knees]
+  | CCorner xs ys knees labels out => [@filter_clusters_corners FloatNum xs ys labels knees]
   | CFilt2 m xs ys knees labels hull r2tab obs sd out =>
-      @filter_clusters FloatNum (@argsort_stable FloatNum) (derived_score m ys r2tab) hull (sd_of sd) xs m labels knees
-  | CCorner2 xs ys knees labels obs out => @filter_clusters_corners FloatNum xs ys labels knees
+      [@filter_clusters FloatNum (@argsort_stable FloatNum) (derived_score m ys r2tab) hull (sd_of sd) xs m labels knees]
+  | CCorner2 xs ys knees labels obs out => [@filter_clusters_corners FloatNum xs ys labels knees]
+  | CSeq calls intact => flat_map show calls
   end.
